@@ -1215,11 +1215,9 @@ func ValueTupleExpr(query *Query, current Map, expr *sqlparser.ValTuple, opts ..
 		if err != nil {
 			return nil, err
 		}
-		if colName, ok := value.(ColumnName); ok {
-			value, err = ExecReader(current, string(colName))
-			if err != nil {
-				return nil, err
-			}
+		value, err = ValueOf(query, current, value)
+		if err != nil {
+			return nil, err
 		}
 		slice = append(slice, value)
 	}
